@@ -475,4 +475,160 @@ theorem reach_of_runSched {V E : Type} [DecidableEq E] (c : Cfg V E) (s0 s s' : 
     · cases h
 
 
+
+/-! ### the completed calls are an interleaving of the threads' programs -/
+
+/-- the calls of the funnel a program makes: parameter and resolved value-or-error, in program order -/
+def annR (o : Oracle V E) : List (Op V E) → List (Pid × VE V E)
+  | [] => []
+  | .announce p ev :: rest => (p, resolve o ev) :: annR o rest
+  | .accAcquire :: rest => annR o rest
+  | .accRelease :: rest => annR o rest
+
+/-- the call a thread is in the middle of -/
+def inflight (o : Oracle V E) : PC V E → List (Pid × VE V E)
+  | .idle => []
+  | .locked p ev => [(p, resolve o ev)]
+  | .timed p _ r => [(p, r)]
+  | .compared p _ v _ => [(p, .val v)]
+  | .stored p _ v _ => [(p, .val v)]
+  | .go p _ r => [(p, r)]
+  | .stamped p _ r => [(p, r)]
+  | .errset p _ r => [(p, r)]
+  | .built p _ r _ => [(p, r)]
+  | .sending p _ r _ _ => [(p, r)]
+  | .leaving p _ r => [(p, r)]
+
+/-- the completed calls of thread `t`, in the order of the global history -/
+def doneBy (t : Tid) (g : List (GItem V E)) : List (Pid × VE V E) :=
+  (g.filter (fun x => x.tid == t)).map (fun x => (x.pid, x.r))
+
+/-- the completed calls on parameter `p`, in the order of the global history -/
+def onParam (p : Pid) (g : List (GItem V E)) : List (REv V E) :=
+  (g.filter (fun x => x.pid == p)).map (fun x => ⟨x.now, x.r⟩)
+
+structure Shuf (c : Cfg V E) (progs : Tid → List (Op V E)) (s : Sys V E) : Prop where
+  thread : ∀ t, doneBy t s.ghist ++ (inflight c.o (s.thr t).pc ++ annR c.o (s.thr t).prog) = annR c.o (progs t)
+  proj : ∀ p, s.hist p = onParam p s.ghist
+
+theorem shuf_init (c : Cfg V E) (init : Pid → Entry V E) (progs : Tid → List (Op V E)) (clock : Int) :
+    Shuf c progs (Sys.init init progs clock) :=
+  ⟨fun t => by simp [Sys.init, doneBy, inflight], fun p => by simp [Sys.init, onParam]⟩
+
+theorem shuf_frame {c : Cfg V E} {progs : Tid → List (Op V E)} {s s' : Sys V E} (h : Shuf c progs s) (t : Tid)
+    (hg : s'.ghist = s.ghist) (hh : s'.hist = s.hist) (hother : ∀ t', t' ≠ t → s'.thr t' = s.thr t')
+    (ht : inflight c.o (s'.thr t).pc ++ annR c.o (s'.thr t).prog =
+          inflight c.o (s.thr t).pc ++ annR c.o (s.thr t).prog) : Shuf c progs s' := by
+  refine ⟨fun t' => ?_, fun p => by rw [hh, hg]; exact h.proj p⟩
+  by_cases htt : t' = t
+  · subst htt; rw [hg, ht]; exact h.thread t'
+  · rw [hg, hother t' htt]; exact h.thread t'
+
+theorem thr_setPc_same (s : Sys V E) (t : Tid) (pc : PC V E) : (s.setPc t pc).thr t = ⟨(s.thr t).prog, pc⟩ := by
+  simp [Sys.setPc]
+
+theorem thr_setPc_other (s : Sys V E) (t t' : Tid) (pc : PC V E) (h : t' ≠ t) : (s.setPc t pc).thr t' = s.thr t' := by
+  simp [Sys.setPc, upd_other _ _ _ _ h]
+
+theorem shuf_step {c : Cfg V E} {progs : Tid → List (Op V E)} {s s' : Sys V E} (h : Shuf c progs s) (t : Tid)
+    (hs : step c s t = some s') : Shuf c progs s' := by
+  unfold step at hs
+  cases hpc : (s.thr t).pc with
+  | idle =>
+    rw [hpc] at hs
+    unfold stepIdle at hs
+    cases hprog : (s.thr t).prog with
+    | nil => rw [hprog] at hs; cases hs
+    | cons op rest =>
+      rw [hprog] at hs
+      cases op with
+      | accAcquire =>
+        simp only at hs
+        split at hs
+        · cases hs
+          exact shuf_frame h t rfl rfl (fun t' ht' => upd_other _ _ _ _ ht') (by simp [hpc, hprog, annR, inflight])
+        · cases hs
+      | accRelease =>
+        simp only at hs
+        split at hs
+        · cases hs
+          exact shuf_frame h t rfl rfl (fun t' ht' => upd_other _ _ _ _ ht') (by simp [hpc, hprog, annR, inflight])
+        · cases hs
+      | announce p ev =>
+        simp only at hs
+        split at hs
+        · cases hs
+          exact shuf_frame h t rfl rfl (fun t' ht' => upd_other _ _ _ _ ht') (by simp [hpc, hprog, annR, inflight])
+        · cases hs
+  | locked p ev =>
+    rw [hpc] at hs; simp only [Option.some.injEq] at hs; subst hs
+    exact shuf_frame h t rfl rfl (fun t' ht' => thr_setPc_other _ _ _ _ ht') (by rw [thr_setPc_same]; simp [hpc, inflight])
+  | timed p now r =>
+    rw [hpc] at hs
+    cases r with
+    | val v =>
+      simp only [Option.some.injEq] at hs; subst hs
+      exact shuf_frame h t rfl rfl (fun t' ht' => thr_setPc_other _ _ _ _ ht') (by rw [thr_setPc_same]; simp [hpc, inflight])
+    | err x =>
+      simp only [Option.some.injEq] at hs; subst hs
+      exact shuf_frame h t rfl rfl (fun t' ht' => thr_setPc_other _ _ _ _ ht')
+        (by rw [thr_setPc_same]; simp only [hpc]; split <;> simp [inflight])
+  | compared p now v chg =>
+    rw [hpc] at hs; simp only [Option.some.injEq] at hs; subst hs
+    exact shuf_frame h t rfl rfl (fun t' ht' => thr_setPc_other _ _ _ _ ht') (by rw [thr_setPc_same]; simp [hpc, inflight])
+  | stored p now v chg =>
+    rw [hpc] at hs; simp only [Option.some.injEq] at hs; subst hs
+    exact shuf_frame h t rfl rfl (fun t' ht' => thr_setPc_other _ _ _ _ ht')
+      (by rw [thr_setPc_same]; simp only [hpc]; split <;> simp [inflight])
+  | go p now r =>
+    rw [hpc] at hs; simp only [Option.some.injEq] at hs; subst hs
+    exact shuf_frame h t rfl rfl (fun t' ht' => thr_setPc_other _ _ _ _ ht') (by rw [thr_setPc_same]; simp [hpc, inflight])
+  | stamped p now r =>
+    rw [hpc] at hs; simp only [Option.some.injEq] at hs; subst hs
+    exact shuf_frame h t rfl rfl (fun t' ht' => thr_setPc_other _ _ _ _ ht') (by rw [thr_setPc_same]; simp [hpc, inflight])
+  | errset p now r =>
+    rw [hpc] at hs; simp only [Option.some.injEq] at hs; subst hs
+    exact shuf_frame h t rfl rfl (fun t' ht' => thr_setPc_other _ _ _ _ ht') (by rw [thr_setPc_same]; simp [hpc, inflight])
+  | built p now r m =>
+    rw [hpc] at hs
+    simp only at hs
+    split at hs
+    · simp only [Option.some.injEq] at hs; subst hs
+      exact shuf_frame h t rfl rfl (fun t' ht' => thr_setPc_other _ _ _ _ ht') (by rw [thr_setPc_same]; simp [hpc, inflight])
+    · cases hs
+  | sending p now r m rest =>
+    rw [hpc] at hs
+    cases rest with
+    | nil =>
+      simp only [Option.some.injEq] at hs; subst hs
+      exact shuf_frame h t rfl rfl (fun t' ht' => thr_setPc_other _ _ _ _ ht') (by rw [thr_setPc_same]; simp [hpc, inflight])
+    | cons k rest =>
+      simp only [Option.some.injEq] at hs; subst hs
+      exact shuf_frame h t rfl rfl (fun t' ht' => thr_setPc_other _ _ _ _ ht') (by rw [thr_setPc_same]; simp [hpc, inflight])
+  | leaving p now r =>
+    rw [hpc] at hs; simp only [Option.some.injEq] at hs; subst hs
+    refine ⟨fun t' => ?_, fun q => ?_⟩
+    · by_cases htt : t' = t
+      · subst htt
+        have := h.thread t'
+        rw [hpc] at this
+        rw [thr_setPc_same]
+        simp only [setPc_ghist, doneBy, List.filter_append, List.map_append, inflight, List.nil_append] at this ⊢
+        simpa [doneBy, inflight] using this
+      · have := h.thread t'
+        rw [thr_setPc_other _ _ _ _ htt]
+        have hne : (t == t') = false := by simpa using (fun h => htt h.symm)
+        simpa [doneBy, List.filter_append, hne] using this
+    · by_cases hq : q = p
+      · subst hq
+        simp [onParam, List.filter_append, h.proj q]
+      · have hne : (p == q) = false := by simpa using (fun h => hq h.symm)
+        simp [onParam, List.filter_append, hne, upd_other _ _ _ _ hq, h.proj q]
+
+theorem shuf_reach {c : Cfg V E} {init : Pid → Entry V E} {progs : Tid → List (Op V E)} {clock : Int}
+    {s : Sys V E} (hr : Reach c (Sys.init init progs clock) s) : Shuf c progs s := by
+  induction hr with
+  | start => exact shuf_init c init progs clock
+  | next t _ hs ih => exact shuf_step ih t hs
+
 end Frappy.UpdateSys
